@@ -156,6 +156,8 @@ pub struct RunRecord {
     pub irr_queries: Vec<String>,
     /// every request document the server received, verbatim
     pub raw_requests: Vec<String>,
+    /// filter expressions in the order the agent's log says it tried to evaluate them (debug events)
+    pub eval_order: Vec<String>,
 }
 
 struct ServerOut {
@@ -336,6 +338,23 @@ fn serve(accept: impl FnOnce() -> Option<Box<dyn AgentConn>>, scn: &Scenario) ->
     out
 }
 
+fn strip_ansi(text: &str) -> String {
+    let mut out = String::with_capacity(text.len());
+    let mut chars = text.chars().peekable();
+    while let Some(c) = chars.next() {
+        if c == '\u{1b}' && chars.peek() == Some(&'[') {
+            for d in chars.by_ref() {
+                if d.is_ascii_alphabetic() {
+                    break;
+                }
+            }
+        } else {
+            out.push(c);
+        }
+    }
+    out
+}
+
 pub fn run_agent(scn: &Scenario, irrd: &Irrd, tag: &str) -> RunRecord {
     run_agent_on(scn, irrd, tag, None)
 }
@@ -408,6 +427,13 @@ pub fn run_agent_on(scn: &Scenario, irrd: &Irrd, tag: &str, tls: Option<&crate::
     rec.server_note = out.note;
     rec.irr_queries = irrd.take_log().into_iter().map(|l| l.query).collect();
     let text = std::fs::read_to_string(&stderr_path).unwrap_or_default();
+    let plain = strip_ansi(&text);
+    rec.eval_order = plain
+        .lines()
+        .filter(|l| l.contains("trying to evaluate filter expression"))
+        .filter_map(|l| l.split("filter_expr=").nth(1))
+        .map(|e| e.trim().to_string())
+        .collect();
     rec.stderr_tail = text.lines().rev().take(6).collect::<Vec<_>>().into_iter().rev().collect::<Vec<_>>().join("\n");
     _ = std::fs::remove_dir_all(&dir);
     rec
@@ -787,6 +813,65 @@ pub fn c01_slice(report: &mut Report) -> u64 {
             }
         }
     }
+    runs
+}
+
+// ---------------- C03: the IRR goes away in the middle of a run ----------------
+/// Installed, still managed policies; the IRRd connection is reset (TCP RST: the client's read fails
+/// with an I/O error; a FIN makes the irrc dependency spin forever, see DESIGN) at the first query of the one policy that needs the IRR, the other policies are literal
+/// prefix sets. Nothing may be deleted or emptied, whatever the evaluation order was; runs are
+/// repeated until the failing policy was seen first and seen last in the agent's own log (or the cap).
+pub fn c03_slice(report: &mut Report) -> u64 {
+    let model: Model = base_model(0);
+    let irrd = Irrd::start(model.db.clone());
+    let pols: Vec<(&str, &str)> = vec![("pol-irr", "AS-A"), ("pol-lit-a", "{ 192.0.2.0/24^+ }"), ("pol-lit-b", "{ 198.51.100.0/24, 203.0.113.0/24^25-26 }"), ("pol-lit-c", "{ 2001:db8::/32^48 }")];
+    let running: Vec<RunningStmt> = pols.iter().map(|(n, e)| managed_stmt(n, e)).collect();
+    let mut runs = 1u64;
+    let first = run_agent(&Scenario { instance_name: None, running: running.clone(), ephemeral: Instance::default(), fault: None, expected_loads: 0, irr_plan: Plan::default() }, &irrd, "C03-install");
+    if first.exit != Some(0) || pols.iter().any(|(n, _)| !first.ephemeral_after.policies.contains_key(*n)) {
+        report.violation("C03:e2e:setup-run-fails", &format!("the fault-free run that installs the four policies failed (exit {:?}); {}", first.exit, first.stderr_tail), json!({"requests_seen": first.rpcs}));
+        return runs;
+    }
+    let installed = first.ephemeral_after;
+    let mut orders_unobserved = 0u64;
+    for (what, fault) in [("connection reset instead of the answer", IrrFault::Reset)] {
+        let (mut seen_first, mut seen_last, mut tries) = (false, false, 0);
+        while !(seen_first && seen_last) && tries < if std::env::var("C03_DEBUG").is_ok() { 2 } else { 24 } {
+            tries += 1;
+            runs += 1;
+            let scn = Scenario { instance_name: None, running: running.clone(), ephemeral: installed.clone(), fault: None, expected_loads: 0, irr_plan: Plan { faults: vec![], fault_on_query: vec![("!iAS-A".into(), fault)] } };
+            let rec = run_agent(&scn, &irrd, &format!("C03-{tries}"));
+            if std::env::var("C03_DEBUG").is_ok() {
+                eprintln!("C03 slice: {what} try {tries}: exit {:?} timed_out {} order {:?}\n{}", rec.exit, rec.timed_out, rec.eval_order, rec.stderr_tail);
+            }
+            let pos = rec.eval_order.iter().position(|e| e.contains("AS-A"));
+            match pos {
+                Some(0) => seen_first = true,
+                Some(p) if p + 1 == pols.len() => seen_last = true,
+                _ => {}
+            }
+            let case = json!({"condition": what, "evaluation_order": rec.eval_order, "requests_seen": rec.rpcs, "exit_status": rec.exit, "timed_out": rec.timed_out, "installed_before": installed.render_configuration(), "installed_after": rec.ephemeral_after.render_configuration(), "agent_log_tail": rec.stderr_tail});
+            for (name, _) in &pols {
+                let (before, after) = (installed.policies.get(*name), rec.ephemeral_after.policies.get(*name));
+                if after.is_none() {
+                    report.violation("C03:e2e:managed-policy-deleted-after-irr-loss", &format!("{what}: policy {name} is still managed but was deleted"), case.clone());
+                } else if *name == "pol-irr" && after != before {
+                    report.violation("C03:e2e:unevaluable-policy-changed-after-irr-loss", &format!("{what}: policy {name} could not be evaluated but its installed form changed"), case.clone());
+                } else if after.map(|p| p.accepts()) != before.map(|p| p.accepts()) {
+                    report.violation("C03:e2e:managed-policy-changed-after-irr-loss", &format!("{what}: policy {name} (a literal prefix set, unchanged) accepts something else after the run"), case.clone());
+                }
+            }
+            for raw in &rec.raw_requests {
+                if raw.contains("<load-configuration") && pols.iter().any(|(n, _)| raw.contains(&format!("<name>{n}</name>"))) && raw.contains("<policy-statement delete=") {
+                    report.violation("C03:e2e:delete-sent-for-managed-policy", &format!("{what}: a delete was sent for a policy that is still managed"), case.clone());
+                }
+            }
+        }
+        if !(seen_first && seen_last) {
+            orders_unobserved += 1;
+        }
+    }
+    report.set("irr_loss_conditions_whose_orders_were_not_all_observed", orders_unobserved);
     runs
 }
 
